@@ -7,7 +7,8 @@
      tun   \subseteq Types              handlers for client streams per type                  HandleTunnel(kind, h)
    An incoming stream is <<src, type, target>>: src = "chord" (inter-node, addressed to virtual node `target`)
    or src = "tunnel" (client stream; target is the peer and plays no role).  Incoming targets range over
-   Targets plus one node nobody registered for.
+   Targets, one node nobody registered for, and ids outside the identifier space aliasing the registered ones;
+   incoming types over Types plus one type without any handler.
 
    "Impl" transcribes acceptChord/acceptTunnel (nested maps: type -> (node -> handler)); "Decl" is the statement.
    A handler is named <<"v", type, target>>, <<"p", type>>, <<"t", type>>; <<"closed">> = no handler, stream closed.
@@ -20,7 +21,9 @@ Emit(r) == PrintT("@@" \o ToJson(r))
 
 Types   == 1..NTypes
 Targets == 1..NTargets
-InTargets == 1..NTargets+1          \* NTargets+1: a virtual node without any registration
+InTargets == 1..(4*NTargets+1)      \* NTargets+1: a virtual node without any registration; beyond: ids outside the 48-bit
+                                    \* identifier space whose low bits equal a registered node's (the driver builds m<<48 | id)
+InTypes == 1..NTypes+1              \* NTypes+1: a stream type nobody registers a handler for
 
 Closed == <<"closed">>
 
@@ -46,11 +49,12 @@ Decl(reg, src, k, t) ==
 Impl(reg, src, k, t) == IF src = "chord" THEN ImplChord(reg.virt, reg.phys, k, t) ELSE ImplTunnel(reg.tun, k)
 
 -------------------------------------------------------------------------------
-Incoming == {<<"chord", k, t>> : k \in Types, t \in InTargets} \cup {<<"tunnel", k, NTargets+1>> : k \in Types}
+Incoming == {<<"chord", k, t>> : k \in InTypes, t \in InTargets} \cup {<<"tunnel", k, NTargets+1>> : k \in InTypes}
 
+NIn == 4*NTargets+1
 IncomingSeq ==
-  [i \in 1..(NTypes * (NTargets+1)) |-> <<"chord", ((i-1) \div (NTargets+1)) + 1, ((i-1) % (NTargets+1)) + 1>>]
-  \o [i \in 1..NTypes |-> <<"tunnel", i, NTargets+1>>]
+  [i \in 1..((NTypes+1) * NIn) |-> <<"chord", ((i-1) \div NIn) + 1, ((i-1) % NIn) + 1>>]
+  \o [i \in 1..(NTypes+1) |-> <<"tunnel", i, NTargets+1>>]
 ASSUME {IncomingSeq[i] : i \in 1..Len(IncomingSeq)} = Incoming
 
 Cases == [virt : SUBSET (Types \X Targets), phys : SUBSET Types, tun : SUBSET Types]
